@@ -624,8 +624,27 @@ func c02eof(c *core.Ctx, r *core.Reporter, read *ssa.Function, tables map[string
 	r.Rule(rule, "when the input ends (not r.more) every mode that denotes an unfinished construct is handled by the end-of-input switch of reader.read (pushes the pending token or raises); a mode that is not handled lets a truncated or final construct vanish silently", 12)
 	loops := core.Loops(read)
 	handled := map[string]bool{}
+	guards := core.ComputeGuards(read, nil)
+	// atEnd: the block is reached only with r.more false (the switch under `if r.more` saves a token that
+	// straddles two blocks; it handles nothing at the end of the input)
+	atEnd := func(b *ssa.BasicBlock) bool {
+		for f := range guards.Facts(b) {
+			cond, outcome := f.If.Cond, f.Branch
+			for {
+				u, ok := cond.(*ssa.UnOp)
+				if !ok || u.Op != token.NOT {
+					break
+				}
+				cond, outcome = u.X, !outcome
+			}
+			if loadsField(cond, core.SlipPath, "reader", "more") && !outcome {
+				return true
+			}
+		}
+		return false
+	}
 	for _, b := range read.Blocks {
-		if core.InnermostLoop(loops, b) != nil {
+		if core.InnermostLoop(loops, b) != nil || !atEnd(b) {
 			continue
 		}
 		for _, in := range b.Instrs {
